@@ -154,6 +154,10 @@ Definition unprotect_aead : M Z :=
   (if inuse && negb inplace && negb (hdr_cc pkt =? 0) then exit_with st_cryptex_err else ret tt) ;;;
   (if u64 (len - tag_len - s_mki_size st) <? u64 (enc_start + (if inplace then hdr_cc pkt * 4 else 0))
    then exit_with st_parse_err else ret tt) ;;;
+  (* with cryptex the extension elements are inside the encrypted portion: the whole extension must fit too (added with
+     the fix that lets the RFC 6904 walk run on the restored header) *)
+  (if inuse && (u64 (len - tag_len - s_mki_size st) <? u64 (hdr_len pkt + xl))
+   then exit_with st_parse_err else ret tt) ;;;
   let enc_len := u64 (len - enc_start - s_mki_size st) in
   (if enc_len <? tag_len then exit_with st_cipher_fail else ret tt) ;;;
   (if b_cap b <? u64 (len - s_mki_size st - tag_len) then exit_with st_buffer_small else ret tt) ;;;
